@@ -78,6 +78,13 @@ def generate(rng, prop, tier):
             prev = [i for i, o in enumerate(ops) if o["op"] in ("transform", "mahalanobis", "score")]
             if prev:
                 ops.append({"op": "repeat", "of": rng.choice(prev), "faults": ["duplicate_call"]})
+    if any(o["op"] == "fit" and o["minimize"] == "real" for o in ops):
+        # a real scipy run evaluates the objective 50-300 times and every evaluation recompiles the filter: keep CSE
+        # (sympy cse + simplify, ~0.3 s per compile) off in runs that contain one, otherwise a single fit takes minutes
+        cfg["cse"] = False
+        for o in ops:
+            if o["op"] == "set_params_config" and "common_subexpression_elimination" in o["fields"]:
+                o["fields"]["common_subexpression_elimination"] = False
     return {"config": cfg, "model": d, "matrices": mats, "ops": ops, "faults": []}
 
 
